@@ -384,3 +384,14 @@ PROPS["C10"] = {
 }
 ENGINES.append({"name": "ct (valgrind lackey + trace cutter)", "path": "/verif/ct", "serves_properties": ["C10"],
                 "kind_free_text": "release trace subject built without hooks, run under valgrind --tool=lackey --trace-mem=yes; ct-cut hashes the marker-delimited (instruction, address) trace"})
+
+
+PROPS["C14"] = _std(
+    "model_checking",
+    "(i) for each secret-holding type (SigningKey, ExpandedSecretKey, EphemeralSecret, ReusableSecret, StaticSecret, SharedSecret) every operation sequence of bounded length over {create in a Box, clone, use by reference, explicit zeroize, drop} on up to 3 registers, followed by dropping everything, executed with a heap observer (global allocator that copies every block at dealloc): no 8-byte window of any secret string may occur in any freed block; positive control: an unwiped boxed array must be seen; "
+    "(ii) explicit zeroisation of scalars, points, compressed forms; (iii) constant-time multiscalar_mul and Scalar::batch_invert for every n of the list with seven secret vectors: freed blocks identical across secrets and free of digit strings / scalar bytes / Montgomery partial products. states = lifecycles (histories), transitions = operations executed.",
+    "Exhaustive enumeration of bounded create/clone/use/zeroize/drop histories with an allocator-level observer; differential freed-heap comparison across secrets under every dispatch.",
+    "DESIGN.md section 4, C14",
+    "exhaustive enumeration of object lifecycles under a heap observer + differential freed-block comparison",
+    lambda tier: [R("simd"), R("simd", dispatch="serial")] if tier == "quick" else [R("simd"), R("simd", dispatch="serial"), R("serial32"), R("fiat64"), R("avx512"), R("avx512", dispatch="avx2"), R("avx512", dispatch="serial")],
+)
